@@ -87,6 +87,7 @@ StateChecks(e) ==
   /\ Chk(C05_NewestOK(sc', nw'), "P", e, "C05_NewestOK")
   /\ Chk(C05_ReadAt(sc', rd'), "P", e, "C05_ReadAt")
   /\ Chk(C05_Epochs(sc', mem'.ep), "P", e, "C05_Epochs")
+  /\ Chk(C05_EpochsBacked(sc', mem'.ep, nw'), "P", e, "C05_EpochsBacked")
 
 TraceNext ==
   /\ Trace[l].a # "End"
@@ -97,16 +98,16 @@ TraceNext ==
         ELSE IF e.a = "CrashRecover" THEN
              /\ Chk(obs'.err = "", "P", e, "C05_ReopenOK")
              /\ IF obs'.err # "" THEN TRUE ELSE
-                /\ Chk(C05_Durable(e.args.op, sc, LastBase, sc'), "P", e, "C05_Durable")
+                /\ Chk(C05_Durable(e.args.op, sc, LastBase, mem.hw, sc'), "P", e, "C05_Durable")
                 /\ Chk(C05_NoPhantom(e.args.op, sc, nw, sc'), "P", e, "C05_NoPhantom")
                 /\ Chk(C05_HW(mem.hw, mem'.hw), "P", e, "C05_HW")
-                /\ Chk(C05_NoGhost(Ghostable(e.args.op, sc, LastBase, nw), sc', nw'), "P", e, "C05_NoGhost")
+                /\ Chk(C05_NoGhost(Ghostable(e.args.op, sc, LastBase, nw, mem.hw), sc', nw'), "P", e, "C05_NoGhost")
                 /\ StateChecks(e)
                 /\ Chk(ImplCrash(e.args), "I", e, "step")
                 /\ Chk(ObserveOK, "I", e, "observe")
         ELSE /\ Chk(P_Op(e.args, sc, nw, LastBase, mem.hw, obs', sc', mem'.hw), "P", e, "P_Op")
              /\ IF obs'.err # "" THEN TRUE
-                ELSE StateChecks(e) /\ Chk(C05_NoGhost(Ghostable(e.args, sc, LastBase, nw), sc', nw'), "P", e, "C05_NoGhost")
+                ELSE StateChecks(e) /\ Chk(C05_NoGhost(Ghostable(e.args, sc, LastBase, nw, mem.hw), sc', nw'), "P", e, "C05_NoGhost")
              /\ Chk(ImplOp(e.args), "I", e, "step")
              /\ Chk(ObserveOK, "I", e, "observe")
 
